@@ -31,8 +31,9 @@ let jloc l = Arr [jnat l.parent_scope; jspan l.dl_span]
 let ty_of j = match to_list j with
   | [Str "sym"; n] -> DtSymbol (nat_of n)
   | [Str "file"; n] -> DtFilename (nat_of n)
+  | [Str "una"; n] -> DtUnassembled (nat_of n)
   | _ -> failwith "ty"
-let jty = function DtSymbol n -> Arr [Str "sym"; jnat n] | DtFilename f -> Arr [Str "file"; jnat f]
+let jty = function DtSymbol n -> Arr [Str "sym"; jnat n] | DtFilename f -> Arr [Str "file"; jnat f] | DtUnassembled k -> Arr [Str "una"; jnat k]
 let analysis_of j =
   List.map (fun d -> (ty_of (field d "ty"),
                       { location = to_opt loc_of (field d "location"); usages = List.map loc_of (to_list (field d "usages")) }))
@@ -82,44 +83,32 @@ let cmd_nav req =
               ("highlight", Arr (List.map jspan (document_highlight a f l c))) ]
       | _ -> Null) (to_list (field req "positions")))) ]
 
-(* {"cmd":"rename","graph":..,"analysis":..,"slices":[[span,"text"],..],"requests":[[file,line,col,"new"],..]} *)
+(* the names in the text of a location: {"names":[[span,[[offset,"id"],..]],..]} *)
+let names_of req =
+  let tbl = List.map (fun e -> match to_list e with
+      | [sp; ns] -> (span_of sp, List.map (fun n -> match to_list n with [o; id] -> (nat_of o, ident_of_string (to_str id)) | _ -> failwith "name") (to_list ns))
+      | _ -> failwith "names") (to_list (field req "names")) in
+  fun (s : span) -> match List.find_opt (fun (s', _) -> s' = s) tbl with Some (_, l) -> l | None -> []
+
+(* {"cmd":"rename","analysis":..,"names":..,"requests":[[file,line,col,"new"],..]} *)
 let cmd_rename req =
-  let g = graph_of (field req "graph") in
   let a = analysis_of (field req "analysis") in
-  let fuel = fuel_of req in
-  let slices = List.map (fun e -> match to_list e with [sp; t] -> (span_of sp, to_str t) | _ -> failwith "slice") (to_list (field req "slices")) in
-  let slice (s : span) : n list list =
-    match List.find_opt (fun (s', _) -> s' = s) slices with
-    | Some (_, t) -> if String.contains t ' ' then [ident_of_string t] else split_path t
-    | None -> [] in
+  let names = names_of req in
   Obj [ ("answers", Arr (List.map (fun q ->
       match to_list q with
       | [f; l; c; nn] ->
-        (match rename_handler fuel g a slice (nat_of f) (nat_of l) (nat_of c) (ident_of_string (to_str nn)) with
+        (match rename_handler a names (nat_of f) (nat_of l) (nat_of c) (ident_of_string (to_str nn)) with
          | RenNone -> Null
-         | RenOutOfFuel -> Obj [ ("out_of_fuel", Bool true) ]
-         | RenEdits (_, edits) -> Arr (List.map (fun e -> Arr [jspan e.ed_span; Str (join_path e.ed_text)]) edits))
+         | RenEdits (_, edits) -> Arr (List.map (fun e -> Arr [jspan e.ed_span; Str (string_of_ident e.ed_text)]) edits))
       | _ -> Null) (to_list (field req "requests")))) ]
 
-(* {"cmd":"classify_rename", graph, analysis, slices, "requests":[[file,line,col,"id under cursor"],..]}
-   -> per request: is the first definition found there in the class Known_import_alias; does prepare_rename offer *)
+(* {"cmd":"classify_rename", analysis, "requests":[[file,line,col,"id under cursor"],..]} -> does prepare_rename offer *)
 let cmd_classify req =
-  let g = graph_of (field req "graph") in
   let a = analysis_of (field req "analysis") in
-  let fuel = fuel_of req in
-  let slices = List.map (fun e -> match to_list e with [sp; t] -> (span_of sp, to_str t) | _ -> failwith "slice") (to_list (field req "slices")) in
-  let slice (s : span) : n list list =
-    match List.find_opt (fun (s', _) -> s' = s) slices with
-    | Some (_, t) -> if String.contains t ' ' then [ident_of_string t] else split_path t
-    | None -> [] in
   Obj [ ("answers", Arr (List.map (fun q ->
       match to_list q with
       | [f; l; c; id] ->
-        let f = nat_of f and l = nat_of l and c = nat_of c in
-        let known = match find_ a f l c with
-          | (DtSymbol nx, d) :: _ -> Bool (known_import_alias fuel g slice nx d)
-          | _ -> Null in
-        Obj [ ("known_import_alias", known); ("prepare", Bool (prepare_rename a (ident_of_string (to_str id)) f l c)) ]
+        Obj [ ("prepare", Bool (prepare_rename a (ident_of_string (to_str id)) (nat_of f) (nat_of l) (nat_of c))) ]
       | _ -> Null) (to_list (field req "requests")))) ]
 
 let () = main_loop [ ("classify_rename", cmd_classify); ("rename", cmd_rename); ("qts", cmd_qts); ("use_pairs", cmd_use_pairs); ("nav", cmd_nav) ]
